@@ -133,6 +133,29 @@ def build(config="pthread", repo=REPO, use_cache=True, keep_bc=False):
         shutil.rmtree(tmp, ignore_errors=True)
 
 
+def build_snippet(src):
+    """Facts for one self-contained C file (positive examples of zero-instance rules), same pipeline, cached by content."""
+    h = hashlib.sha256(open(src, "rb").read())
+    with open(IRDUMP, "rb") as f:
+        h.update(hashlib.sha256(f.read()).digest())
+    os.makedirs(CACHE, exist_ok=True)
+    out = os.path.join(CACHE, "snip-%s-%s.json" % (os.path.basename(src)[:-2], h.hexdigest()[:16]))
+    if os.path.exists(out):
+        return out
+    tmp = tempfile.mkdtemp(prefix="slumt-snip-")
+    try:
+        bc = os.path.join(tmp, "s.bc"); m2r = os.path.join(tmp, "s.m2r.bc")
+        for cmd in (["clang-14", "-O0", "-Xclang", "-disable-O0-optnone", "-g", "-w", "-emit-llvm", "-c", src, "-o", bc],
+                    ["opt-14", "-passes=mem2reg", bc, "-o", m2r], [IRDUMP, m2r, out + ".tmp%d" % os.getpid()]):
+            r = subprocess.run(cmd, capture_output=True, text=True)
+            if r.returncode != 0:
+                raise BuildError("snippet %s: %s" % (src, r.stderr[:300]))
+        os.replace(out + ".tmp%d" % os.getpid(), out)
+        return out
+    finally:
+        shutil.rmtree(tmp, ignore_errors=True)
+
+
 if __name__ == "__main__":
     cfg = sys.argv[1] if len(sys.argv) > 1 else "pthread"
     p, info = build(cfg, use_cache="--no-cache" not in sys.argv)
